@@ -329,10 +329,10 @@ func calleeName(info *types.Info, call *ast.CallExpr) string {
 	if f := Callee(info, call); f != nil {
 		if sig := f.Type().(*types.Signature); sig.Recv() != nil {
 			if n := derefNamed(sig.Recv().Type()); n != nil {
-				return n.Obj().Name() + "." + f.Name()
+				return n.Obj().Name() + "." + fnName(f)
 			}
 		}
-		return f.Name()
+		return fnName(f)
 	}
 	// function-typed package variables (e.g. controller-runtime's webhook.Allowed aliases): last path segment
 	s := exprString(call.Fun)
